@@ -106,7 +106,9 @@ type subscriber struct {
 	events      []sev
 	closed      bool
 	closedStep  int64
-	stopAfter   int // > 0: stop receiving (abandon) after this many events
+	stopAfter   int           // > 0: stop receiving (abandon) after this many events
+	lag         time.Duration // > 0: the consumer sleeps that long (fake time) before its first receive
+	lagEvery    bool          // ... and before every further one
 	abandoned   bool
 
 	vch <-chan *resource.ValueChange
@@ -170,7 +172,13 @@ func (s *subscriber) run(t *Task, r *realRes) {
 	s.pullInvoked = t.W.Step()
 	s.open(r)
 	s.pullReturn = t.W.Step()
+	if s.lag > 0 {
+		t.Sleep(s.lag) // a slow consumer: does not come for its first event before everybody else is at rest or blocked
+	}
 	for {
+		if s.lag > 0 && s.lagEvery {
+			t.Sleep(s.lag)
+		}
 		if s.stopAfter > 0 && len(s.events) >= s.stopAfter {
 			s.abandoned = true
 			t.W.Fault("abandon")
